@@ -179,9 +179,19 @@ class RefMaps(object):
         return out
 
     def values(self, positions, unit, mus, pre, origin):
+        """exact values at the sorted positions (all inside [t0, last]), zero at `origin`"""
         tab = self.table(unit, mus, pre)
+        rates = [self.rate(a, unit, mus, pre) for a, _ in tab]
         z = self.raw(origin, unit, mus, pre, tab)
-        return [self.raw(p, unit, mus, pre, tab) - z for p in positions]
+        out = []
+        k = 0
+        n = len(tab)
+        for p in positions:
+            while k + 1 < n - 1 and tab[k + 1][0] < p:
+                k += 1
+            a, v = tab[k]
+            out.append(v + (p - a) * rates[k] - z)
+        return out
 
     def change_points(self, unit):
         cps = {t for t, _ in self.divs if self.t0 <= t <= self.last}
